@@ -12,10 +12,19 @@ Verdict(e) ==
   ELSE IF e.tree_after # e.tree_before THEN "rejected_call_changed_the_children"
   ELSE IF e.root_after # e.root_before THEN "rejected_call_changed_an_ancestor"
   ELSE "ok"
+(* C10 on the same probes, whatever the outcome: e.links = every (lister, listed child) pair below the root of the     *)
+(* target and below any other element the call involved: <<lister, child, child.parent is lister, same version/level>> *)
+ConsistencyVerdict(e) ==
+  IF \E i \in 1..Len(e.links) : ~e.links[i][3] THEN "listed_child_reports_another_parent"
+  ELSE IF \E i, j \in 1..Len(e.links) : i # j /\ e.links[i][2] = e.links[j][2] THEN "element_listed_twice"
+  ELSE IF \E i \in 1..Len(e.links) : ~e.links[i][4] THEN "mixed_version_or_level_in_one_tree"
+  ELSE "ok"
 Init == l = 1 /\ nontriv = 0 /\ failed = 0
 Next == /\ l <= Len(Events)
         /\ LET e == Events[l]
-               v == Verdict(e)
+               a == Verdict(e)
+               b == ConsistencyVerdict(e)
+               v == IF a # "ok" /\ b # "ok" THEN a \o "+" \o b ELSE IF a # "ok" THEN a ELSE b
                pm == e.outcome # "ok"
            IN /\ IF pm THEN TRUE ELSE PrintT(<<"T", e.id>>)
               /\ IF v = "ok" THEN TRUE ELSE PrintT(<<"V", e.id, v>>)
